@@ -419,7 +419,7 @@ def validate_traces(sc, module, cfg, traces, batch=2000, timeout=900, deque=Fals
 
 def load_known():
     known, fixed = [], []
-    paths = [os.path.join(ROOT, "known_findings.jsonl")]
+    paths = [os.environ.get("VERIF_KNOWN_FILE") or os.path.join(ROOT, "known_findings.jsonl")]
     if os.environ.get("VERIF_KNOWN"):      # development only: extra proposed entries
         paths.append(os.environ["VERIF_KNOWN"])
     for p in paths:
